@@ -158,6 +158,27 @@ def main():
             else:
                 ck.nontrivial(src)
 
+    # ---------------- stream 3a: every variadic body shape x every argument shape (empty arguments in every position), exhaustively --------------------
+    VDEFS = ['#define F(x, ...) f(x __VA_OPT__(,) __VA_ARGS__)', '#define F(...) g(__VA_OPT__(y))', '#define F(x, ...) h(x __VA_OPT__(+ x) | __VA_ARGS__ |)',
+             '#define F(x, y, ...) k(x ## y __VA_OPT__(: __VA_ARGS__))', '#define F(...) [__VA_ARGS__]', '#define F(x, ...) __VA_OPT__(x x) __VA_OPT__() end',
+             '#define F(x, ...) x ## __VA_ARGS__', '#define F(x...) <x>', '#define F(a, x...) <a __VA_OPT__(;) x>']
+    VCALLS = ['F()', 'F(1)', 'F(1,)', 'F(1, 2)', 'F(1, , 2)', 'F(, 3)', 'F(,)', 'F(,,)', 'F(1, 2, 3)', 'F(1, 2, )', 'F((a, b), c)', 'F(1, (,))', 'F( , )', 'F(1,2,,)', 'F(, , 3)', 'F(1, , )', 'F(1,\n , 2)']
+    for d_ in VDEFS:
+        for c_ in VCALLS:
+            src = '%s\nint u = %s ;\n' % (d_, c_)
+            g = run_gcc(wd, 'v.h', src)
+            ck.count()
+            ck.dist('variadic-shapes')
+            if g is None:
+                ck.dist('rejected-by-gcc')
+                continue
+            i = run_impl(b, wd, 'v.h', src)
+            if i != g:
+                ck.spec_failure('variadic-shape:' + ('va_opt' if '__VA_OPT__' in d_ else 'va_args'), 'variadic macro %r called as %r: %s' % (d_, c_, first_diff(g, i)),
+                                {'kind': 'spec', 'files': {'m.h': src}, 'cmd': 'parse_file -E m.h   vs   gcc -E -P -x c++ -std=c++23 m.h', 'conforming': g, 'parse_file': i})
+            else:
+                ck.nontrivial(src)
+
     # ---------------- stream 3b: CPPManifest::stringify itself against the extracted state machine (proved = 6.10.3.2 on well-formed tokens) -----------
     L = b['lib']
     stool = vlib.harness(b, 'scan_tool', ['scan_tool.cxx'], libs=(), extra=[os.path.join(L, 'libcppParser.a'), os.path.join(L, 'libdtoolutil.a'), os.path.join(L, 'libdtoolbase.a')])
